@@ -368,9 +368,9 @@ BODIES = {"seq": body_seq}
 # ------------------------------------------------------------------ strategies / machine
 
 @st.composite
-def new_step(draw, dtype=None, layout=None, backend=None):
+def new_step(draw, dtype=None, layout=None, backend=None, dtypes=None):
     h, w = draw(st.integers(3, 7)), draw(st.integers(3, 7))
-    dtype = dtype or draw(st.sampled_from(S.ALL_DTYPES))
+    dtype = dtype or draw(st.sampled_from(dtypes or S.ALL_DTYPES))
     if dtype.startswith("float"):
         pal = draw(st.sampled_from([[0.0, 1.0, 2.0, 3.0, 5.0], [0.5, 1.5, 2.0, 0.0, 4.25, "nan"], [1.0, 2.0, 3.0, 4.0, 5.0, 0.0]]))
     else:
@@ -390,7 +390,9 @@ def call_step(draw, names=None):
             "variant": draw(st.integers(0, 5))}
 
 
-def run_machine(ctx, max_examples, step_count, fast_only=False):
+def run_machine(ctx, max_examples, step_count, fast_only=False, dtypes=None):
+    # each worker process restricts itself to a few dtypes: every (function, dtype) pair is a separate Numba specialisation
+    # (~0.5 s each), and the shards together cover all ten dtypes
     import hypothesis
     from hypothesis import HealthCheck, settings
     from hypothesis.stateful import RuleBasedStateMachine, initialize, rule, run_state_machine_as_test
@@ -408,7 +410,7 @@ def run_machine(ctx, max_examples, step_count, fast_only=False):
                 holder["fail"] = (list(self.ex.steps), self.r.fails[0])
                 raise Violation(*self.r.fails[0])
 
-        @initialize(a=new_step(), b=new_step(), c=new_step(dtype="int32", backend="numpy"))
+        @initialize(a=new_step(dtypes=dtypes), b=new_step(dtypes=dtypes), c=new_step(dtype="int32", backend="numpy"))
         def init(self, a, b, c):
             b = dict(b)
             b["spec"] = {"dtype": b["spec"]["dtype"], "data": a["spec"]["data"]} if False else b["spec"]
@@ -438,7 +440,7 @@ def run_machine(ctx, max_examples, step_count, fast_only=False):
                 self.r.fail("%s[%s]" % (exc_bucket(e), fn), "%s: %s\n%s" % (type(e).__name__, e, traceback.format_exc()[-1500:]))
             self._after()
 
-        @rule(s=new_step())
+        @rule(s=new_step(dtypes=dtypes))
         def new_raster(self, s):
             if len(self.ex.pool) < 12:
                 self._do(s)
@@ -520,10 +522,12 @@ def shards(tier):
         out.append(("matrix#%d" % g, lambda ctx, mine=mine: drive_enum(ctx, body_seq, matrix_cases(mine, combos), stop_on_first=False,
                                                                       space="registry function x input class matrix: %s x %d classes" % (mine, len(combos)), size=len(mine) * len(combos))))
     nm, ex, steps = (8, 7, 25) if tier == "quick" else (10, 60, 50)
+    others = [d for d in S.ALL_DTYPES if d != "float64"]
     for i in range(nm):
-        out.append(("machine#%d" % i, lambda ctx: run_machine(ctx, ex, steps, fast_only=(tier == "quick"))))
+        dts = ["float64", others[i % len(others)], others[(i + 4) % len(others)]]
+        out.append(("machine#%d" % i, lambda ctx, dts=dts: run_machine(ctx, ex, steps, fast_only=(tier == "quick"), dtypes=dts)))
     if tier == "quick":
-        out.append(("machine_slow#0", lambda ctx: run_machine(ctx, 3, 15)))
+        out.append(("machine_slow#0", lambda ctx: run_machine(ctx, 3, 15, dtypes=["float64", "int32"])))
     return out
 
 
